@@ -482,6 +482,60 @@ pub fn run_c03(o: &Opts) {
       }
     }
   }
+  // near misses of the skipping rules: the pattern is a node's own text with ONE named child removed
+  // (and the comma next to it), tried on that node: only a strictness that may skip the removed child on
+  // the candidate side (a comment under relaxed / signature) lets it match
+  for lang in langs_for(o, 3) {
+    let srcs = corpus::sources(lang, &mut rng, 3, 2500);
+    for src in &srcs {
+      let sg = corpus::parse(lang, src);
+      let nodes: Vec<N> = corpus::all_nodes(sg.root()).into_iter()
+        .filter(|n| n.is_named() && n.range().len() <= 200 && n.children().filter(|c| c.is_named()).count() >= 2 && is_sigil_free(&n.text(), lang)).collect();
+      if nodes.is_empty() {
+        continue;
+      }
+      for _ in 0..(if o.thorough { 120 } else { 40 }) {
+        let t = rng.pick(&nodes).clone();
+        if subtree_size(&t) > 60 {
+          continue;
+        }
+        let named: Vec<N> = t.children().filter(|c| c.is_named()).collect();
+        let c = rng.pick(&named).clone();
+        let base = t.range().start;
+        let text = t.text().to_string();
+        let (mut a, mut b) = (c.range().start - base, c.range().end - base);
+        let bytes = text.as_bytes();
+        // swallow a following ", " or a preceding ","
+        let mut j = b;
+        while j < bytes.len() && (bytes[j] == b' ' || bytes[j] == b'\t') {
+          j += 1;
+        }
+        if j < bytes.len() && bytes[j] == b',' {
+          b = j + 1;
+          while b < bytes.len() && bytes[b] == b' ' {
+            b += 1;
+          }
+        } else {
+          let mut i = a;
+          while i > 0 && (bytes[i - 1] == b' ' || bytes[i - 1] == b'\t') {
+            i -= 1;
+          }
+          if i > 0 && bytes[i - 1] == b',' {
+            a = i - 1;
+          }
+        }
+        if !text.is_char_boundary(a) || !text.is_char_boundary(b) {
+          continue;
+        }
+        let ptext = format!("{}{}", &text[..a], &text[b..]);
+        if ptext.trim().is_empty() {
+          continue;
+        }
+        out.count("planned:drop-one-child");
+        plan.push(Planned { lang, src: src.clone(), ptext, start: t.range().start, end: t.range().end, kind: t.kind_id(), si: 2 + rng.below(3) });
+      }
+    }
+  }
   // the planned cases are executed in a shuffled order ACROSS languages and sources, so that any state
   // kept between matches (caches keyed too coarsely, thread-locals) is exercised; the matcher is a pure
   // function of (pattern, node), so the model's answer does not depend on the order
